@@ -1,6 +1,8 @@
 //! E5 (C19): the real release `clockbound` binary, one run per --max-drift-rate value, each worker in
 //! its own mount namespace with a private tmpfs on /run (so /var/run/clockbound/shm is private).
 
+pub mod e2e;
+
 use crate::common::report::{cov, finish, machinery_failure, Ctx, Outcome, Tier, Violation};
 use serde_json::{json, Value};
 use std::collections::BTreeMap;
